@@ -44,6 +44,7 @@ def conc(chk):
 
 
 def run(chk):
+    hist_common.idlock_obligation(chk, "C04")
     conc(chk)
     return hist_common.run_property(chk, "C04", note="the concurrent clause is checked on real goroutines under the Go scheduler inside a synctest bubble (sampled schedules), and rests on C13 (mutual exclusion per ID) for the general claim")
 
